@@ -35,7 +35,7 @@ func init() {
 	register("C08", propMeta{
 		Level: "other",
 		Explanation: "Semantic equivalence of compiler and source is translation validation and is not decided. Decided clauses: R08a a compiled program shared through the cache is never mutated: no value derived from Program.{Instructions,Resources,Sources,NeededBalances} (or Machine.UnresolvedResources / Machine.Program) is the target of an element store, map update, append, copy, delete or sort outside package compiler, and shared *MonetaryInt values are immutable (R01c); " +
-			"R08b the cache key is a digest of the whole script text and what is returned for a key is what was stored under it; R08c opcode tables agree: OP_* constants = cases of Machine.tick = cases of OpcodeName, every emitted opcode is one of them, and the operand width written by the compiler (Address.ToBytes) equals the width OP_APUSH consumes; R08d the static type discipline is applied: the type returned by VisitExpr/VisitVariable/VisitLit is compared or propagated at every call site (frozen exceptions: polymorphic consumers, and VisitMonetary which checks the same expression first); R08e the address VisitExpr returns for push=false is used as the value only for types that have no compound form (the compound types are read from VisitExpr's own returns), otherwise only for the asset (OP_ASSET / needed balances); R08f the text of a composite parse-tree node (a generated context type with a child-rule accessor; antlr concatenates its tokens without the skipped white space) never identifies the node: in package compiler it reaches no map key, map lookup or equality test between nodes.",
+			"R08b the cache key is a digest of the whole script text and what is returned for a key is what was stored under it; R08c opcode tables agree: OP_* constants = cases of Machine.tick = cases of OpcodeName, every emitted opcode is one of them, and the operand width written by the compiler (Address.ToBytes) equals the width OP_APUSH consumes; R08d the static type discipline is applied: the type returned by VisitExpr/VisitVariable/VisitLit is compared or propagated at every call site (frozen exceptions: polymorphic consumers, and VisitMonetary which checks the same expression first); R08e the address VisitExpr returns for push=false is used as the value only for types that have no compound form (the compound types are read from VisitExpr's own returns), otherwise only for the asset (OP_ASSET / needed balances); R08h an arithmetic opcode is emitted only on paths where the static types of both operands were compared equal to the operand type of the opcode; R08g the subtraction opcodes compute (value popped second) − (value popped first), the order in which the compiler pushed the operands; R08f the text of a composite parse-tree node (a generated context type with a child-rule accessor; antlr concatenates its tokens without the skipped white space) never identifies the node: in package compiler it reaches no map key, map lookup or equality test between nodes.",
 		NotDecided:  "that the emitted instruction sequence implements each statement; resource ordering; exactness of arithmetic.",
 		Trusted:     []string{"gcache returns the value stored under the key", "sha256"},
 	}, func(c *Ctx) {
@@ -46,6 +46,8 @@ func init() {
 		ruleR08d(c, "R08d")
 		ruleR08e(c, "R08e")
 		ruleR08f(c, "R08f")
+		ruleR08g(c, "R08g")
+		ruleR08h(c, "R08h")
 	})
 	register("C12", propMeta{
 		Level: "other",
